@@ -5,6 +5,7 @@ import DAVerif.Drv.OpsDrv
 import DAVerif.Drv.SqlDrv
 import DAVerif.Drv.Schema
 import DAVerif.Drv.EvalCache
+import DAVerif.Drv.Text
 import DAVerif.Drv.DataSpace
 /-!
 Line-protocol driver: one JSON case per input line
@@ -14,7 +15,7 @@ Total: a malformed or unknown case answers `bad`.
 open Lean DAVerif.Drv
 
 def allHandlers : List (String × Handler) :=
-  OSetDrv.handlers ++ CCDrv.handlers ++ OpsDrv.handlers ++ SqlDrv.handlers ++ SchemaDrv.handlers ++ EvalCacheDrv.handlers ++ DataSpaceDrv.handlers
+  OSetDrv.handlers ++ CCDrv.handlers ++ OpsDrv.handlers ++ SqlDrv.handlers ++ SchemaDrv.handlers ++ EvalCacheDrv.handlers ++ TextDrv.handlers ++ DataSpaceDrv.handlers
 
 def answer (line : String) : Json :=
   match Json.parse line with
